@@ -74,7 +74,7 @@ Theorem C01_class_all_utf8_text : forall ls tag s ctx,
   exists g, canon ls EUtf8 (TPrim PString) tag (VStr s) ctx = Some g.
 Proof. exact class_utf8. Qed.
 Theorem C01_class_all_date_times : forall tag (y : Z) mo d h mi s ctx, tag_ok_b tag = true ->
-  (0 <= y <= 9999)%Z -> ymd_ok y mo d = true -> hms_ok h mi s = true ->
+  (0 <= y)%Z -> ymd_ok y mo d = true -> hms_ok h mi s = true ->
   exists g, canon LTlv EDefault (TPrim PDateTime) tag (VDate y mo d h mi s) ctx = Some g.
 Proof. exact class_datetime. Qed.
 
